@@ -33,6 +33,8 @@ def cvalue(v):
     return "VOther"
 
 def cqty(v):
+    if isinstance(v["u"]["p"], dict): raise OutOfModel("mixed")
+    if v["m"][0] not in KIND: raise OutOfModel(v["m"][0])
     return f"(MkQty {KIND[v['m'][0]]} {cQ(cnum(v['m']))} {cunit3(v['u'])})"
 
 def cexpected(r, nomag=False):
@@ -81,6 +83,7 @@ def ccase(case, rec):
             raise OutOfModel("Decimal power of a non-positive base with a fractional exponent (InvalidOperation)")
         return f"(CRoot {cqty(rec['l'])} {cZ(case['r'])} {cexpected(res, nomag=(case['r'] != 0))})"
     if op == "in_unit":
+        if isinstance(rec["r"]["u"]["p"], dict): raise OutOfModel("mixed")
         return f"(CInUnit {cqty(rec['l'])} {cunit3(rec['r']['u'])} {cexpected(res)})"
     raise OutOfModel(op)
 
